@@ -172,7 +172,7 @@ class Outcome:
             print("KNOWN-FINDING: property=%s %s" % (self.pid, k))
         rc = 0
         seen = set()
-        for what, replay in self.violations:
+        for what, replay in self.violations[:5]:
             p = vlib.write_replay(self.pid, dict(replay, what=what, property=self.pid))
             if p in seen:
                 continue
